@@ -109,12 +109,14 @@ class LinspaceGrid(ContinuousGrid):
 
     def to_jax(self) -> Array:
         """Convert the grid to a Jax array."""
-        return grid_helpers.linspace(self.start, self.stop, self.n_points)
+        return grid_helpers.linspace(
+            float(self.start), float(self.stop), self.n_points
+        )
 
     def get_coordinate(self, value: Scalar) -> Scalar:
         """Get the generalized coordinate of a value in the grid."""
         return grid_helpers.get_linspace_coordinate(
-            value, self.start, self.stop, self.n_points
+            value, float(self.start), float(self.stop), self.n_points
         )
 
 
@@ -142,12 +144,14 @@ class LogspaceGrid(ContinuousGrid):
 
     def to_jax(self) -> Array:
         """Convert the grid to a Jax array."""
-        return grid_helpers.logspace(self.start, self.stop, self.n_points)
+        return grid_helpers.logspace(
+            float(self.start), float(self.stop), self.n_points
+        )
 
     def get_coordinate(self, value: Scalar) -> Scalar:
         """Get the generalized coordinate of a value in the grid."""
         return grid_helpers.get_logspace_coordinate(
-            value, self.start, self.stop, self.n_points
+            value, float(self.start), float(self.stop), self.n_points
         )
 
 
@@ -230,6 +234,19 @@ def _get_field_names_and_values(dc: type) -> dict[str, Any]:
     return {field.name: getattr(dc, field.name, None) for field in fields(dc)}
 
 
+def _is_finite(value: float) -> bool:
+    """Check whether a value is finite when represented as a floating point number.
+
+    Integers that are too large to be converted to a float are not finite in this sense;
+    math.isfinite raises an OverflowError for them.
+
+    """
+    try:
+        return math.isfinite(value)
+    except OverflowError:
+        return False
+
+
 def _validate_continuous_grid(
     start: float,
     stop: float,
@@ -261,10 +278,10 @@ def _validate_continuous_grid(
             f"n_points must be an int greater than 0 but is {n_points}",
         )
 
-    if valid_start_type and not math.isfinite(start):
+    if valid_start_type and not _is_finite(start):
         error_messages.append("start must be a finite value")
 
-    if valid_stop_type and not math.isfinite(stop):
+    if valid_stop_type and not _is_finite(stop):
         error_messages.append("stop must be a finite value")
 
     if valid_start_type and valid_stop_type and start >= stop:
